@@ -253,3 +253,206 @@ RULES = {'C02': c02, 'C03': c03, 'C04': c04, 'C09': c09, 'C10': c10, 'C11': c11}
 def run(pid, fb, rep):
     if pid in RULES:
         RULES[pid](fb, rep)
+
+
+# ================================================================================================ second batch (F94 - F102)
+def c01(fb, rep):
+    """R01.7: in the solver a loop `for(i = 0; i < dim(); ++i)` runs over the positions of the basis; the status of the member at position i is
+    the status of baseId(i)'s row or column - desc().colStatus(number(id)) - never desc().colStatus(i) / rowStatus(i), which is the status
+    of the row / column whose NUMBER happens to be i.  (F102)"""
+    rep.rule('R01.7', 'a loop over the positions of the basis (i < dim()) never reads desc().colStatus(i) / rowStatus(i) with the position', floor=10)
+    k = 0
+    for f in sorted(fb.methods_of(S), key=lambda g: g.line):
+        if not f.nodes:
+            continue
+        for n in f.nodes:
+            if n.k != 'ForStmt' or n.kid('cond') is None or n.kid('body') is None or n.kid('init') is None:
+                continue
+            c = render(n.kid('cond')) + ' ' + render(n.kid('init'))
+            if not re.search(r'\bdim\(\)', c) or re.search(r'nRows|nCols|coDim', c):
+                continue
+            m = re.search(r'(\w+) = ', render(n.kid('init')))
+            if not m:
+                continue
+            v = m.group(1)
+            uses_base = any(x.k == 'CXXMemberCallExpr' and x.short == 'baseId' and x.args() and render(strip(x.args()[0])) == v for x in n.kid('body').walk())
+            for x in n.kid('body').walk():
+                if x.k == 'CXXMemberCallExpr' and x.short in ('colStatus', 'rowStatus') and x.args() and render(strip(x.args()[0])) == v:
+                    k += 1
+                    rep.bad('R01.7', '%s|%s(%s)#%d' % (f.short, x.short, v, k), '%s:%d' % (f.file, x.l),
+                            '%s counts the positions of the basis (loop bound dim()), `%s` reads the status of the %s whose number is %s, not of the basis member at that position '
+                            '(that is %s(number(baseId(%s))))' % (v, render(x)[:40], 'column' if x.short == 'colStatus' else 'row', v, x.short, v))
+            if uses_base:
+                k += 1
+                rep.ok('R01.7', '%s|loop(%s < dim())#%d' % (f.short, v, k), '%s:%d' % (f.file, n.l), 'members are addressed through baseId(%s)' % v)
+    if k < 10:
+        raise AnalysisBroken('R01.7: only %d loops over basis positions found' % k)
+
+
+def c07(fb, rep):
+    """R07.11: areLPsInSync() compares what the user sees: every value it reads from the floating-point LP goes through an ...Unscaled accessor.  (F94)
+    R07.12: no rational number reaches the floating-point LP through mpq_get_d() (truncation); conversions go through R(Rational).  (F97)
+    R07.13: objective sense and offset are parameters of SoPlexBase: wherever an LP is cleared or a rational LP is created, both are re-applied
+    to that LP on every path.  (F98, F99)"""
+    rep.rule('R07.11', 'areLPsInSync() reads the values of the floating-point LP through the unscaled accessors', floor=10)
+    f = fb.one(C + '::areLPsInSync')
+    k = 0
+    for n in f.nodes:
+        if n.k == 'CXXMemberCallExpr' and n.obj() is not None and render(strip(n.obj())) == '_realLP' and n.short in (
+                'rhs', 'lhs', 'upper', 'lower', 'maxObj', 'obj', 'colVector', 'rowVector',
+                'rhsUnscaled', 'lhsUnscaled', 'upperUnscaled', 'lowerUnscaled', 'maxObjUnscaled', 'objUnscaled', 'getColVectorUnscaled', 'getRowVectorUnscaled'):
+            par = f.parent_of(n)
+            # vector-valued getter used only for its dimension
+            if par is not None and par.k == 'MemberExpr' and par.short == 'dim':
+                continue
+            k += 1
+            rep.check(n.short.endswith('Unscaled'), 'R07.11', 'areLPsInSync|_realLP->%s#%d' % (n.short, k), '%s:%d' % (f.file, n.l), 'unscaled accessor',
+                      'areLPsInSync() compares `%s` with the rational LP: after a solve with persistent scaling that is a scaled number, two LPs that are in sync are reported '
+                      'as different (and the assertions on areLPsInSync in optimize() abort an exact solve that follows a floating-point solve)' % render(n)[:40])
+    if k < 10:
+        raise AnalysisBroken('R07.11: only %d value reads of the real LP found in areLPsInSync' % k)
+    rep.rule('R07.12', 'no value is converted with mpq_get_d() in SoPlexBase (it truncates; every other path rounds to nearest)', floor=1)
+    bad = []
+    for g in fb.methods_of(C):
+        for n in g.nodes:
+            if n.k == 'CallExpr' and n.short in ('mpq_get_d', '__gmpq_get_d'):
+                bad.append((g, n))
+    for g, n in bad:
+        rep.bad('R07.12', '%s|mpq_get_d' % g.short, '%s:%d' % (g.file, n.l), '%s converts a rational with mpq_get_d(), which truncates towards zero: the floating-point LP gets '
+                '0.89999999999999991 for 9/10 where every other path stores 0.90000000000000002' % g.short)
+    rep.ok('R07.12', 'scan|SoPlexBase', 'src/soplex.hpp', '%d member functions scanned, %d conversions with mpq_get_d' % (len(fb.methods_of(C)), len(bad)), nontrivial=False)
+    rep.rule('R07.13', 'after an LP is cleared, or a rational LP is created, objective sense and offset are re-applied to it on every path', floor=5)
+    k = 0
+    for g in sorted(fb.methods_of(C), key=lambda h: h.line):
+        if not g.nodes:
+            continue
+        sites = []
+        for n in g.nodes:
+            if n.k == 'CXXMemberCallExpr' and n.short == 'clear' and n.obj() is not None and render(strip(n.obj())) in ('_realLP', '_rationalLP') and not n.args():
+                sites.append((n, render(strip(n.obj()))))
+            if n.k == 'CXXNewExpr' and 'SPxLPBase<Rational>' in (n.t or '') and g.short == '_ensureRationalLP':
+                sites.append((n, '_rationalLP'))
+        if not sites:
+            continue
+        gr = Graph(g)
+        for n, lp in sites:
+            k += 1
+            res = []
+            for setter in ('changeSense', 'changeObjOffset'):
+                ok, _p = gr.must_pass(lambda x, s_=setter, lp_=lp: x.k == 'CXXMemberCallExpr' and x.short == s_ and x.obj() is not None and render(strip(x.obj())) == lp_ and x.l >= n.l,
+                                      start=gr.block_of(n))
+                res.append((setter, ok))
+            miss = [s_ for s_, ok in res if not ok]
+            rep.check(not miss, 'R07.13', '%s|%s %s#%d' % (g.short, lp, 'clear()' if n.k != 'CXXNewExpr' else 'new', k), '%s:%d' % (g.file, n.l), 'sense and offset re-applied',
+                      'after %s in %s a path reaches the end of the function without %s on that LP: SPxLPBase::clear() / a new LP have MAXIMIZE and offset 0 while the parameters '
+                      'OBJSENSE / OBJ_OFFSET keep their values' % ('%s->clear()' % lp if n.k != 'CXXNewExpr' else 'the creation of the rational LP', g.short, ' / '.join(miss)))
+    if k < 5:
+        raise AnalysisBroken('R07.13: only %d clear / creation sites found' % k)
+
+
+def c09b(fb, rep):
+    """R09.11: the per-row / per-column arrays of LPRowSetBase / LPColSetBase - sides / bounds, objective, scale exponents - have one entry per
+    vector: a member function that enlarges the side / bound arrays enlarges scaleExp too.  (F96)
+    R09.12: when PERSISTENTSCALING is off and the LP is (still) scaled, _optimize() unscales it before the solve.  (F101)"""
+    rep.rule('R09.11', 'LPRowSetBase / LPColSetBase: every member function that enlarges the side / bound arrays enlarges scaleExp', floor=8)
+    k = 0
+    for cls, first in (('soplex::LPRowSetBase<double>', 'left'), ('soplex::LPColSetBase<double>', 'low'), ('soplex::LPRowSetBase<Rational>', 'left'), ('soplex::LPColSetBase<Rational>', 'low')):
+        for g in sorted(fb.methods_of(cls), key=lambda h: h.line):
+            if not g.nodes or g.mk in ('copyctor', 'defctor') or g.short in (cls.split('::')[-1].split('<')[0], 'clear'):
+                continue
+            grows = [n for n in g.nodes if n.k == 'CXXMemberCallExpr' and n.short == 'reDim' and n.obj() is not None and render(strip(n.obj())) == first]
+            if not grows:
+                continue
+            k += 1
+            se = [n for n in g.nodes if n.k == 'CXXMemberCallExpr' and n.short in ('reSize', 'reDim') and n.obj() is not None and render(strip(n.obj())) == 'scaleExp']
+            rep.check(bool(se), 'R09.11', '%s::%s(%s)' % (cls.replace('soplex::', ''), g.short, ','.join(t[:10] for _, t in g.params)[:40]), g.where(), 'scaleExp is enlarged too',
+                      '%s enlarges %s (and its sibling arrays) but not scaleExp: a later removal moves scaleExp entries of all rows / columns and indexes beyond the array' % (g.short, first))
+    if k < 8:
+        raise AnalysisBroken('R09.11: only %d growing member functions found' % k)
+    rep.rule('R09.12', '_optimize(): with PERSISTENTSCALING off a scaled LP is unscaled before the solve', floor=1)
+    from engine import Assume
+    f = fb.one(C + '::_optimize')
+
+    def hook(n, txt):
+        t = txt.replace(' ', '')
+        if t in ('_realLP->isScaled()', '(_realLP->isScaled())'):
+            return True
+        return None
+    A = Assume(bools={'PERSISTENTSCALING': False}, hook=hook)
+    g = Graph(f, A)
+    solves = [n for n in f.nodes if n.k == 'CXXMemberCallExpr' and n.short == '_preprocessAndSolveReal']
+    if not solves:
+        raise AnalysisBroken('R09.12: _optimize() does not call _preprocessAndSolveReal any more')
+    first = min(solves, key=lambda n: n.l)
+    ok, path = g.must_pass(lambda x: x.k == 'CXXMemberCallExpr' and x.short in ('unscaleLPandReloadBasis', 'unscaleLP'), to=g.block_of(first))
+    rep.check(ok, 'R09.12', '_optimize|PERSISTENTSCALING off, LP scaled', f.where(), 'every path to the solve unscales the LP',
+              'with PERSISTENTSCALING switched off and the LP still scaled from an earlier solve a path reaches _preprocessAndSolveReal() without unscaling the LP: the '
+              'non-persistent code works on an LP that is scaled already (assertion in _disableSimplifierAndScaler)')
+
+
+def c19(fb, rep):
+    """R19.11: SVSetBase::operator= copies the vectors whenever the source has vectors (num() > 0), also when none of them has a nonzero
+    (size() == 0).  Decided by pruning the CFG under rhs.size() == 0, rhs.num() > 0.  (F95)
+    R19.12: in SSVectorBase a call of clear() - which walks the vector's own index list idx[0..num) - is never reachable after num was
+    overwritten with something else in the same function.  (F100)"""
+    from engine import Assume
+    rep.rule('R19.11', 'SVSetBase::operator=: a set of empty vectors (size() == 0, num() > 0) is copied', floor=2)
+    k = 0
+    for f in sorted(fb.funcs.values(), key=lambda g: (g.file, g.line, g.name)):
+        if not re.match(r'soplex::SVSetBase<[^:]*>$', f.cls or '') or f.short != 'operator=' or not f.nodes or len(f.params) != 1:
+            continue
+        src = f.params[0][0]
+
+        def hook(n, txt, src=src):
+            t = txt.replace(' ', '').strip('()')
+            if t == '%s.size()>0' % src:
+                return False
+            if t == '%s.num()>0' % src:
+                return True
+            if t.startswith('this!='):
+                return True
+            return None
+        g = Graph(f, Assume(hook=hook))
+        copies = lambda x: (x.k == 'CXXMemberCallExpr' and x.short == 'add' and x.args() and render(strip(x.args()[0])) == src) or \
+            (x.k in ('BinaryOperator', 'CXXOperatorCallExpr') and render(x).replace(' ', '').startswith('(set=%s.set' % src))
+        ok, path = g.must_pass(copies)
+        k += 1
+        rep.check(ok, 'R19.11', '%s(%s)' % (f.name.replace('soplex::', '')[:50], f.params[0][1][:40]), f.where(), 'the vectors are copied',
+                  'with %s.size() == 0 (no nonzero) and %s.num() > 0 (vectors exist) operator= reaches its end without copying the vectors: an LP whose rows are all empty '
+                  'loses its rows when it is assigned' % (src, src))
+    if k < 2:
+        raise AnalysisBroken('R19.11: only %d assignment operators of SVSetBase found' % k)
+    rep.rule('R19.12', 'SSVectorBase: clear() is not reachable after num was overwritten in the same function', floor=3)
+    k = 0
+    for f in sorted(fb.funcs.values(), key=lambda g: (g.file, g.line, g.name)):
+        if not (f.cls or '').startswith('soplex::SSVectorBase<double>') or not f.nodes or f.short in ('clear', 'setSize', 'forceSetup'):
+            continue
+        writes = [n for n in f.nodes if n.k == 'BinaryOperator' and n.o == '=' and render(strip(n.kids[0])) in ('num', 'this->num', 'IdxSet::num')
+                  and render(strip(n.kids[1])) not in ('0',)]
+        if not writes:
+            continue
+        clears = [n for n in f.nodes if n.k == 'CXXMemberCallExpr' and n.short == 'clear' and not n.args() and (n.obj() is None or n.obj().k == 'CXXThisExpr')]
+        k += 1
+        g = Graph(f)
+        hit = None
+        for w in writes:
+            live = g.reach(g.block_of(w))
+            for c_ in clears:
+                if g.block_of(c_) in live and not (g.block_of(c_) == g.block_of(w) and c_.l < w.l):
+                    hit = (w, c_)
+        rep.check(hit is None, 'R19.12', '%s(%s)' % (f.name.replace('soplex::', '')[:60], ','.join(t[:14] for _, t in f.params)[:40]), f.where(), 'no clear() after a write of num',
+                  '%s overwrites num (line %d) and can then call clear() (line %d), which zeroes val[idx[i]] for i < num: it walks index entries that belong to another vector' %
+                  (f.short, hit[0].l if hit else 0, hit[1].l if hit else 0))
+    if k < 3:
+        raise AnalysisBroken('R19.12: only %d member functions of SSVectorBase write num' % k)
+
+
+_c09a = c09
+
+
+def _c09(fb, rep):
+    _c09a(fb, rep)
+    c09b(fb, rep)
+
+
+RULES.update({'C01': c01, 'C07': c07, 'C09': _c09, 'C19': c19})
